@@ -29,7 +29,7 @@ ASSUMPTIONS = ["path resolution is by element names on the lxml tree of the prim
 def plan(tier, seed):
     n = 1400 if tier == "quick" else 22000
     return {"shards": 16, "timeout": 900 if tier == "quick" else 3000, "n": n,
-            "floors": {"outputs_checked": n // 2, "refs_resolved": n * 5, "collision_cases": 100, "xpath_contract_evals": 1000, "distinct": 50}}
+            "floors": {"suite_conversions_judged": 500, "outputs_checked": n // 2, "refs_resolved": n * 5, "collision_cases": 100, "xpath_contract_evals": 1000, "distinct": 50}}
 
 
 def special_form(rng, i):
